@@ -34,7 +34,7 @@ Open Scope N_scope.
 
 (* ------------------------------------------------------------------ results *)
 
-Inductive eclass := ESetup | EOpen | EIo | EHashMismatch | EDecode | EEncode | ECommit.
+Inductive eclass := ESetup | EOpen | EIo | EHashMismatch | EDecode | EEncode | ECommit | EReify.
 Inductive status := SOk | SErr (e : eclass) | SPanic.
 
 (* ------------------------------------------------------------------ CID links *)
@@ -314,6 +314,41 @@ Section LinkSystem.
     | FLoad | FFill => fill trusted ro l
     | FLoadRaw => load_raw ro l
     | FLoadPlusRaw => load_plus_raw ro l
+    end.
+
+  (* ---------------------------------------------------------------- NodeReifier
+
+     A link system as a caller holds it: the TrustedStorage flag and the read opener.  Load and
+     LoadPlusRaw (not Fill, not LoadRaw) pass the node they built, together with the *LinkSystem
+     they were called on, to the configured NodeReifier; an ADL built there keeps that handle and
+     loads further links through it, during the call and long after it returned. *)
+  Record handle := { h_trusted : bool; h_open : link -> ropen }.
+
+  (* no reifier configured / one that returns the node it was given / one that fails *)
+  Inductive rmode := RNone | RId | RFail.
+
+  Definition reifies (f : lform) : bool :=
+    match f with FLoad | FLoadPlusRaw => true | _ => false end.
+
+  Definition status_ok (o : lout) : bool := match lo_status o with SOk => true | _ => false end.
+
+  (* the load functions on a handle, with a reifier *)
+  Definition load_h (rm : rmode) (f : lform) (h : handle) (l : link) : lout :=
+    let o := load_any f (h_trusted h) (h_open h l) l in
+    match rm with
+    | RFail =>
+      if reifies f && status_ok o then
+        {| lo_status := SErr EReify; lo_node := None;
+           lo_raw := match f with FLoadPlusRaw => lo_raw o | _ => None end |}
+      else o
+    | _ => o
+    end.
+
+  (* the link system handed to the reifier, when it is invoked: the one the call was made on *)
+  Definition reifier_handle (rm : rmode) (f : lform) (h : handle) (l : link) : option handle :=
+    match rm with
+    | RNone => None
+    | _ => if reifies f && status_ok (load_any f (h_trusted h) (h_open h l) l) then Some h else None
     end.
 
   (* LinkSystem.ComputeLink *)
